@@ -349,6 +349,10 @@ func verifWriteType(name string) primitive.WriteType {
 	return verifWriteTypes[verifChoice(name, len(verifWriteTypes))]
 }
 
+// set when a generated map has more than one entry: Go's map iteration order is then unspecified and a
+// byte-for-byte comparison with the reference encoder is not meaningful (the round trip still is)
+var verifMultiEntryMap bool
+
 type verifKind struct {
 	name  string
 	valid func(v primitive.ProtocolVersion) bool
@@ -364,6 +368,7 @@ var verifKinds = map[string]verifKind{
 		m := &message.Startup{Options: map[string]string{"CQL_VERSION": verifStrNE("cqlv")}}
 		if verifOpt("compression") {
 			m.Options["COMPRESSION"] = verifStrNE("compression")
+			verifMultiEntryMap = true
 		}
 		return m
 	}},
@@ -394,6 +399,7 @@ var verifKinds = map[string]verifKind{
 			m.Options["CQL_VERSION"] = []string{verifStrNE("opt1v")}
 		}
 		if verifOpt("opt2") {
+			verifMultiEntryMap = len(m.Options) > 0
 			m.Options["COMPRESSION"] = []string{verifStrNE("opt2v1"), verifStrNE("opt2v2")}
 		}
 		return m
